@@ -904,7 +904,11 @@ pub fn tokenize(out: &[u8]) -> Result<Vec<Ev>, String> {
             }
         } else if b[i] == b'\n' || b[i] == b'\r' {
             i += 1;
-        } else if b[i].is_ascii_hexdigit() && i + 2 < b.len() && b[i + 1].is_ascii_hexdigit() && (b[i + 2] == b'\t' || b[i + 2] == b' ') {
+        } else if b[i].is_ascii_hexdigit() && i + 1 < b.len() && b[i + 1].is_ascii_hexdigit() && (i + 2 >= b.len() || matches!(b[i + 2], b'\t' | b' ' | b'\n' | b'\r')) && {
+            // the whole line is made of two-digit hex cells (separated by tabs or blanks, with or without a trailing one)
+            let t = rest_line(i).0.trim();
+            !t.is_empty() && t.split_whitespace().all(|c| c.len() == 2 && c.chars().all(|x| x.is_ascii_hexdigit()))
+        } {
             // memory dump rows until a line that is not a row
             let mut rows: Vec<&str> = Vec::new();
             let mut j = i;
